@@ -52,5 +52,56 @@ theorem exBuild1 : build exF exP {} exW [0, 1] = .ok exR1 := by rfl
 theorem exBuild2 : build exF exP {} exW2 [0, 1] = .ok exR2 := by rfl
 theorem exBuild3 : build exF exP {} exW3 [0, 1] = .ok exR3 := by rfl
 
+/-! ### witness for the shrinking dependency set (finding F11b) -/
+
+/-- one task with two dependencies … -/
+def shT : TaskSpec := { id := 0, src := 90, deps := [10, 11], prods := [20], after := [] }
+/-- … and the same task (same id, same module content) after dependency 11 was dropped, e.g. because
+the list of dependencies is computed by a glob at import time and the file was removed. -/
+def shT' : TaskSpec := { id := 0, src := 90, deps := [10], prods := [20], after := [] }
+def shP : Project := ⟨[shT]⟩
+def shP' : Project := ⟨[shT']⟩
+def shW : World := ⟨[(10, 5), (11, 7), (90, 1)], []⟩
+def shR1 : Result :=
+  { exit := 0, reports := [(0, .success)], log := [0],
+    w := { fs := [(20, 13), (10, 5), (11, 7), (90, 1)],
+           db := [((0, 41), 13), ((0, 0), 1), ((0, 23), 7), ((0, 21), 5)] },
+    complete := true }
+def shR2 : Result :=
+  { exit := 0, reports := [(0, .skipUnchanged)], log := [],
+    w := shR1.w, complete := true }
+
+theorem shBuild1 : build exF shP {} shW [0] = .ok shR1 := by rfl
+theorem shBuild2 : build exF shP' {} shR1.w [0] = .ok shR2 := by rfl
+
+theorem shWF : WF shP := by
+  refine ⟨?_, ?_, ?_⟩ <;> intro t ht <;> simp only [shP, List.mem_singleton] at ht <;> subst ht
+  · intro u hu _; simp only [shP, List.mem_singleton] at hu; exact hu.symm
+  · decide
+  · intro u hu; simp only [shP, List.mem_singleton] at hu; subst hu; decide
+
+theorem shWF' : WF shP' := by
+  refine ⟨?_, ?_, ?_⟩ <;> intro t ht <;> simp only [shP', List.mem_singleton] at ht <;> subst ht
+  · intro u hu _; simp only [shP', List.mem_singleton] at hu; exact hu.symm
+  · decide
+  · intro u hu; simp only [shP', List.mem_singleton] at hu; subst hu; decide
+
+theorem shBT : BodiesTotal shP := by
+  intro t ht k; simp only [shP, List.mem_singleton] at ht; subst ht; simp [shT]
+theorem shBT' : BodiesTotal shP' := by
+  intro t ht k; simp only [shP', List.mem_singleton] at ht; subst ht; simp [shT']
+
+/-- The from-scratch content of the product under the shrunken project is 6, not the 13 on disk. -/
+theorem shScratch : Scratch exF shP' shR2.w.fs 20 6 := by
+  have h := Scratch.prod (F := exF) (P := shP') (inp := shR2.w.fs) shT' 20 0 [5] (by simp [shP']) (by decide) rfl
+    (by
+      intro k d v hk hv
+      cases k with
+      | zero =>
+        simp [shT'] at hk hv; subst hk; subst hv
+        exact Scratch.input 10 5 (by intro t ht; simp only [shP', List.mem_singleton] at ht; subst ht; decide) (by decide)
+      | succ k => simp [shT'] at hk)
+  exact h
+
 end Engine
 end Pytask
